@@ -26,6 +26,9 @@ type variant struct {
 	Stop     bool // Stop() issued while calls may still be in flight
 	StopRest bool // Stop() issued once producers and consumer are at rest, then late calls
 	Extra    bool // consumer also issues feedback(unknown) and a repeated finish
+	// Dup: when the consumer finishes seed "a", a second caller issues this call for the same seed
+	// at the same time ("finish" = a concurrent repeated finish, "feedback" = a feedback racing the finish)
+	Dup string
 	Inserts1 []string
 	Inserts2 []string
 }
@@ -204,10 +207,27 @@ func consumer(w *world) {
 			// a frozen/stopped reactor refused the feedback: like the finisher, drop it
 			continue
 		}
-		w.call("cons", "finish", id, func() error { return reactor.MarkAsFinished(it) })
-		w.mu.Lock()
-		w.finished++
-		w.mu.Unlock()
+		var dupDone chan struct{}
+		if w.v.Dup != "" && id == "a" {
+			dupDone = make(chan struct{})
+			go func() { // dup
+				if w.v.Dup == "finish" {
+					w.call("dup", "finish", id, func() error { return reactor.MarkAsFinished(it) })
+				} else {
+					w.call("dup", "feedback", id, func() error { return reactor.ReceiveFeedback(it) })
+				}
+				close(dupDone)
+			}()
+		}
+		fres := w.call("cons", "finish", id, func() error { return reactor.MarkAsFinished(it) })
+		if dupDone != nil {
+			<-dupDone
+		}
+		if fres == "ok" || w.v.Dup == "" {
+			w.mu.Lock()
+			w.finished++
+			w.mu.Unlock()
+		}
 		if extra {
 			extra = false
 			w.call("cons", "finish", id, func() error { return reactor.MarkAsFinished(it) })
@@ -249,8 +269,14 @@ func oracle(x *vsched.Exec, w *world) error {
 			return fmt.Errorf("output: %d accepted inserts+feedbacks but the consumer received %d items", accepted, len(w.received))
 		}
 		want := len(w.v.Inserts1) + len(w.v.Inserts2)
-		if w.finished != want {
-			return fmt.Errorf("liveness: %d of %d seeds finished at quiescence", w.finished, want)
+		fin := map[string]bool{}
+		for _, o := range w.ops {
+			if o.Kind == "finish" && o.Res == "ok" {
+				fin[o.ID] = true
+			}
+		}
+		if len(fin) != want {
+			return fmt.Errorf("liveness: %d of %d seeds finished at quiescence", len(fin), want)
 		}
 	} else if !w.v.Stop && !w.v.StopRest {
 		// frozen, never stopped: the run loop keeps draining, nothing accepted may be lost
@@ -265,6 +291,8 @@ func variants(tier string) []variant {
 	vs := []variant{
 		{Name: "t1-three-seeds", Tokens: 1, Extra: true, Inserts1: []string{"a", "b"}, Inserts2: []string{"c"}},
 		{Name: "t2-three-seeds", Tokens: 2, Extra: true, Inserts1: []string{"a", "b"}, Inserts2: []string{"c"}},
+		{Name: "t2-concurrent-repeated-finish", Tokens: 2, Dup: "finish", Inserts1: []string{"a", "b"}, Inserts2: []string{"c"}},
+		{Name: "t2-feedback-racing-finish", Tokens: 2, Dup: "feedback", Inserts1: []string{"a", "b"}},
 		{Name: "t1-freeze", Tokens: 1, Freeze: true, Inserts1: []string{"a", "b"}, Inserts2: []string{"c"}},
 		{Name: "t2-freeze", Tokens: 2, Freeze: true, Inserts1: []string{"a", "b"}, Inserts2: []string{"c"}},
 		{Name: "t1-freeze-rest-stop-late-calls", Tokens: 1, Freeze: true, StopRest: true, Inserts1: []string{"a"}, Inserts2: []string{"b"}},
